@@ -168,7 +168,7 @@ def history_case(ctx, case) -> None:
             if rng.random() < 0.3:
                 data = np.where(np.isnan(data) | np.isinf(data), data, -np.abs(data) * rng.choice([1.0, 1e-16]))   # negative gaps (rounding residues)
             saved_data, saved_actions = data.copy(), actions.copy()
-            failing = rng.random() < 0.06
+            failing = rng.random() < 0.06 or (case.get("force") and idx == 1)
             if failing:
                 # a save that cannot be serialised (tuple-keyed / circular metadata): it may raise, it must not damage the file
                 bad = {}
@@ -180,8 +180,10 @@ def history_case(ctx, case) -> None:
             before = path.read_bytes() if path.exists() else None
             before_parsed = json.loads(before) if before is not None else {}
             _AUDIT["events"].clear()
-            use_dispatcher = (not failing) and rng.random() < 0.06
-            if use_dispatcher and rng.random() < 0.6:
+            use_dispatcher = (not failing) and (rng.random() < 0.06 or (case.get("force") and idx in (2, 3)))
+            if case.get("force") and idx in (2, 3):
+                name = f"forced{idx}"
+            elif use_dispatcher and rng.random() < 0.6:
                 # run names that agree up to their last dot (seeds, learning rates, timestamps) share plot file names
                 name = rng.choice(["run.1", "run.2", "run.3", "lr0.0003", "lr0.0001", "2026-10-01T12:00:00.123", "2026-10-01T12:00:00.456"])
             if use_dispatcher and (not name.strip() or len(name) > 40 or name != name.strip() or not all(ch.isalnum() or ch in ".-:" for ch in name) or name.startswith(".")):
@@ -384,6 +386,7 @@ def run(ctx) -> None:
                        "computer": rng.choice(["superadditive", "superadditive_cached"]), "gap": rng.choice(["exploitability", "l1_norm"]),
                        "limit": 2, "name": "bs", "seed": rng.randint(0, 10**6), "procs": 1,
                        "sub": ["best_states", "--sampling-repetitions", "2", "--eval-repetitions", str(rng.choice([2, 3]))], "twice": False})
+    history_case(ctx, {"history_seed": rng.randint(0, 2**31), "length": 12, "force": True})       # guaranteed minimum
     i = 0
     t_cmd = 0.0
     while not ctx.out_of_time(6.0):
